@@ -70,7 +70,11 @@ MLine(before, after) ==
                r |-> o.r, x |-> o.x]
   IN IF o.k = "req" THEN base @@ [q |-> [after.creq EXCEPT !.G = IF @ = -1 THEN -1 ELSE @ * 100,
                                                             !.file = [j \in 1..Len(@) |-> FileMs(@[j])]]]
-     ELSE IF o.k = "reply" THEN base @@ [rc |-> ""] ELSE base
+     ELSE IF o.k = "reply"
+     THEN \* the reason class of a refusal (D7's signature): the model's only apply-time refusal of `set` is the singleton one
+          base @@ [rc |-> IF o.r = "error" /\ before.cur # <<>> /\ before.fr[Head(before.cur)].fn = "req"
+                             /\ before.fr[Head(before.cur)].pc = "xs" THEN "singleton" ELSE ""]
+     ELSE base
 
 \* what the read-only requests would answer in state st (commands/list.py, numprocesses.py, status.py, stats.py)
 ProbeOf(st) ==
